@@ -18,7 +18,6 @@ var probeSpecs = []probeSpec{
 	{"F-C14a", "expelled", "state.Validator"},
 	{"F-C14b", "addrSet", "state.ValidatorIndex"},
 	{"F-C14c", "dsMap", "staking.EvidenceDoubleSign"},
-	{"F-C14d", "nilptr", "types.Transaction"},
 }
 
 // witness builds the fixed witness of a rule: the model's encoding of a fixed generated value, rewritten once by `wild`.
